@@ -118,6 +118,15 @@ pub fn run(t: &[&str]) -> String {
                     return "err dispatch-answers-without-inputs".into();
                 }
             }
+            // a clone of the (by now partially indexed) view is a view of the same text: the same answers, whatever it
+            // inherited of the original's line index
+            let svc = sv.clone();
+            for (k, (l, c, n)) in queries.iter().enumerate() {
+                let d = sm.get_original_function_name(*l, *c, n, &svc).map(|s| s.to_string()).unwrap_or("-".into());
+                if d != rs[k] {
+                    return "err cloned-view-differs".into();
+                }
+            }
             format!("ok {}", show_list(&rs))
         }
         _ => "bad-op".into(),
